@@ -1,5 +1,5 @@
 (* inventories read off this run's AST: no hidden mutable global state, no direct libc allocation *)
-From Coq Require Import List String Bool NArith.
+From Coq Require Import List String Ascii Bool NArith.
 Import ListNotations.
 From CBGen Require Import Gen_inventory.
 Local Open Scope string_scope.
@@ -7,16 +7,18 @@ Local Open Scope string_scope.
 Definition allocator_ptrs := ["_cbor_malloc"; "_cbor_realloc"; "_cbor_free"].
 Definition mem (s : string) (l : list string) : bool := existsb (String.eqb s) l.
 
-(* a variable with static storage duration is acceptable iff it is const and never assigned, or
-   one of the three allocator pointers assigned only by cbor_set_allocs, or the callback table
-   local to cbor_load, which is never assigned *)
-Definition global_ok (g : string * string * string * bool * list string) : bool :=
-  let '(name, file, fn, is_const, writers) := g in
-  (is_const && match writers with [] => true | _ => false end)
+(* a variable with static storage duration is acceptable iff it is never assigned (directly, through a member or an element, by
+   `op=`, `++`, `--`) and is either const or such that no pointer through which it could be written ever leaves an expression
+   (`&v` / array decay only under a conversion to pointer-to-const or for indexing) - the callback table of cbor_load is of that
+   kind, wherever it is declared and whatever it is called -, or it is one of the three allocator pointers, assigned only by
+   cbor_set_allocs *)
+Definition never_written (is_const : bool) (writers : list string) (escapes : bool) : bool :=
+  (is_const || negb escapes) && match writers with [] => true | _ => false end.
+Definition global_ok (g : string * string * string * bool * list string * bool) : bool :=
+  let '(name, file, fn, is_const, writers, escapes) := g in
+  never_written is_const writers escapes
   || (mem name allocator_ptrs && String.eqb file "allocators.c"
-      && forallb (fun w => String.eqb w "cbor_set_allocs") writers)
-  || (String.eqb name "callbacks" && String.eqb fn "cbor_load"
-      && match writers with [] => true | _ => false end).
+      && forallb (fun w => String.eqb w "cbor_set_allocs") writers).
 
 Lemma bridge_globals : forallb global_ok gen_globals = true.
 Proof. vm_compute. reflexivity. Qed.
@@ -25,9 +27,9 @@ Proof. vm_compute. reflexivity. Qed.
    between calls: no variable with static storage duration in their files is mutable or ever assigned *)
 Definition stateless_files := ["cbor/streaming.c"; "cbor/internal/loaders.c"; "cbor/internal/encoders.c"; "cbor/encoding.c";
                                "cbor/internal/unicode.c"; "cbor/internal/memory_utils.c"; "cbor/callbacks.c"].
-Definition stateless_ok (g : string * string * string * bool * list string) : bool :=
-  let '(name, file, fn, is_const, writers) := g in
-  negb (mem file stateless_files) || (is_const && match writers with [] => true | _ => false end).
+Definition stateless_ok (g : string * string * string * bool * list string * bool) : bool :=
+  let '(name, file, fn, is_const, writers, escapes) := g in
+  negb (mem file stateless_files) || never_written is_const writers escapes.
 Lemma bridge_stateless_files : forallb stateless_ok gen_globals = true.
 Proof. vm_compute. reflexivity. Qed.
 
@@ -89,4 +91,101 @@ Proof. vm_compute. reflexivity. Qed.
 Definition pp_allowed := ["CBOR_PRETTY_PRINTER"; "__cplusplus"; "DEBUG"; "CBOR_HAS_NODISCARD_ATTRIBUTE"; "__GNUC__"; "_MSC_VER";
                           "CBOR_HAS_BUILTIN_UNREACHABLE"; "IS_BIG_ENDIAN"].
 Lemma bridge_pp_conditionals : forallb (fun m => mem m pp_allowed) gen_pp_macros = true.
+Proof. vm_compute. reflexivity. Qed.
+
+(* ---- call graph of this run (every function defined with a body under src/, the functions it names or calls, the number of
+   its stores through memory): two reachability obligations.  An empty graph means the inventory could not be generated (reported as
+   TRANSLATOR-DEGRADED by the runner); nothing is concluded from it. ---- *)
+Local Open Scope N_scope.
+Definition cg_find (f : string) : option (string * string * N * list string) :=
+  find (fun e => let '(g, _, _, _) := e in String.eqb g f) gen_callgraph.
+(* every name reachable from [todo] through the bodies of the functions defined under src/ (externs and calls through pointers are
+   kept as leaves); the fuel is the number of functions plus one, and a name is expanded at most once *)
+Fixpoint cg_reach (fuel : nat) (todo seen : list string) : list string :=
+  match fuel with
+  | O => todo ++ seen
+  | S k =>
+    match todo with
+    | [] => seen
+    | f :: rest =>
+      if mem f seen then cg_reach k rest seen
+      else match cg_find f with
+           | Some (_, _, _, cs) => cg_reach k (cs ++ rest) (f :: seen)
+           | None => cg_reach k rest (f :: seen)
+           end
+    end
+  end.
+(* each expansion consumes one unit and adds a new name to [seen]; a skipped name consumes one unit too, so the fuel is the number
+   of edges plus nodes *)
+Definition cg_fuel : nat := S (fold_right (fun e acc => let '(_, _, _, cs) := e in S (List.length cs + acc)) O gen_callgraph).
+Definition cg_closure (f : string) : list string := cg_reach cg_fuel [f] [].
+
+(* C18: the predicates and getters that hand out no reference.  From each of them, no function that stores through memory (a
+   pointer, a member of a pointed-to object, an element of a pointed-to array, a variable with static storage) is reachable, no call
+   goes through a pointer, and the only functions without a body under src/ are these side-effect-free builtins. *)
+Definition pure_externs := ["__builtin_nanf"; "__builtin_nan"; "__builtin_inff"; "__builtin_inf"; "__builtin_isnan"; "__builtin_isinf";
+                            "__builtin_huge_valf"; "__builtin_huge_val"; "ldexp"; "ldexpf"; "fabs"; "fabsf"; "strlen"; "memcmp";
+                            "__builtin_unreachable"; "__builtin_expect"]%string.
+Definition readonly_getters := [
+  "cbor_typeof"; "cbor_isa_uint"; "cbor_isa_negint"; "cbor_isa_bytestring"; "cbor_isa_string"; "cbor_isa_array"; "cbor_isa_map";
+  "cbor_isa_tag"; "cbor_isa_float_ctrl"; "cbor_is_int"; "cbor_is_float"; "cbor_is_bool"; "cbor_is_null"; "cbor_is_undef";
+  "cbor_refcount";
+  "cbor_int_get_width"; "cbor_get_uint8"; "cbor_get_uint16"; "cbor_get_uint32"; "cbor_get_uint64"; "cbor_get_int";
+  "cbor_float_get_width"; "cbor_float_ctrl_is_ctrl"; "cbor_float_get_float2"; "cbor_float_get_float4"; "cbor_float_get_float8";
+  "cbor_float_get_float"; "cbor_ctrl_value"; "cbor_get_bool";
+  "cbor_bytestring_length"; "cbor_bytestring_handle"; "cbor_bytestring_is_definite"; "cbor_bytestring_is_indefinite";
+  "cbor_bytestring_chunks_handle"; "cbor_bytestring_chunk_count";
+  "cbor_string_length"; "cbor_string_handle"; "cbor_string_codepoint_count"; "cbor_string_is_definite"; "cbor_string_is_indefinite";
+  "cbor_string_chunks_handle"; "cbor_string_chunk_count";
+  "cbor_array_size"; "cbor_array_allocated"; "cbor_array_is_definite"; "cbor_array_is_indefinite"; "cbor_array_handle";
+  "cbor_map_size"; "cbor_map_allocated"; "cbor_map_is_definite"; "cbor_map_is_indefinite"; "cbor_map_handle";
+  "cbor_tag_value" ]%string.
+Definition name_pure (g : string) : bool :=
+  match cg_find g with
+  | Some (_, _, stores, _) => stores =? 0
+  | None => mem g pure_externs
+  end.
+Definition getter_pure (f : string) : bool :=
+  match cg_find f with Some _ => forallb name_pure (cg_closure f) | None => false end.
+Lemma bridge_readonly_getters :
+  match gen_callgraph with [] => true | _ => forallb getter_pure readonly_getters end = true.
+Proof. vm_compute. reflexivity. Qed.
+
+(* C13 / C08 / C07: the streaming decoder, the low-level encoders, fixed-buffer serialization and size computation request no
+   memory: neither the allocator pointers nor any libc allocation function is reachable from them, and the only calls through a
+   pointer are the client's callbacks invoked by cbor_stream_decode. *)
+Definition alloc_names := ["*_cbor_malloc"; "*_cbor_realloc"; "*_cbor_free"; "_cbor_malloc"; "_cbor_realloc"; "_cbor_free";
+  "_cbor_alloc_multiple"; "_cbor_realloc_multiple";
+  "malloc"; "calloc"; "realloc"; "free"; "strdup"; "strndup"; "alloca"; "aligned_alloc"; "posix_memalign"; "reallocarray";
+  "__builtin_malloc"; "__builtin_calloc"; "__builtin_realloc"; "__builtin_free"; "__builtin_strdup"; "__builtin_strndup";
+  "__builtin_alloca"; "__builtin_aligned_alloc"; "__builtin_alloca_with_align";
+  "memalign"; "valloc"; "pvalloc"; "cfree"; "asprintf"; "vasprintf"; "getline"; "getdelim"; "open_memstream"; "realpath"; "mmap";
+  "munmap"; "sbrk"; "brk"]%string.
+Definition decoder_callbacks := ["*uint8"; "*uint16"; "*uint32"; "*uint64"; "*negint8"; "*negint16"; "*negint32"; "*negint64";
+  "*byte_string"; "*byte_string_start"; "*string"; "*string_start"; "*array_start"; "*indef_array_start"; "*map_start";
+  "*indef_map_start"; "*tag"; "*float2"; "*float4"; "*float8"; "*null"; "*undefined"; "*boolean"; "*indef_break"]%string.
+Definition is_indirect (g : string) : bool := match g with String "*"%char _ => true | _ => false end.
+Definition no_alloc_api := [
+  "cbor_stream_decode";
+  "cbor_encode_uint8"; "cbor_encode_uint16"; "cbor_encode_uint32"; "cbor_encode_uint64"; "cbor_encode_uint";
+  "cbor_encode_negint8"; "cbor_encode_negint16"; "cbor_encode_negint32"; "cbor_encode_negint64"; "cbor_encode_negint";
+  "cbor_encode_bytestring_start"; "cbor_encode_indef_bytestring_start"; "cbor_encode_string_start"; "cbor_encode_indef_string_start";
+  "cbor_encode_array_start"; "cbor_encode_indef_array_start"; "cbor_encode_map_start"; "cbor_encode_indef_map_start";
+  "cbor_encode_tag"; "cbor_encode_bool"; "cbor_encode_null"; "cbor_encode_undef"; "cbor_encode_half"; "cbor_encode_single";
+  "cbor_encode_double"; "cbor_encode_break"; "cbor_encode_ctrl";
+  "cbor_serialize"; "cbor_serialize_uint"; "cbor_serialize_negint"; "cbor_serialize_bytestring"; "cbor_serialize_string";
+  "cbor_serialize_array"; "cbor_serialize_map"; "cbor_serialize_tag"; "cbor_serialize_float_ctrl"; "cbor_serialized_size" ]%string.
+(* a call through a parameter or an automatic variable of the function ("*(local)") is not a way to reach the allocator by itself:
+   wherever a function names an allocator pointer - also to copy it into such a variable - the reference is recorded as `*_cbor_..` *)
+Definition name_allocfree (g : string) : bool :=
+  negb (mem g alloc_names) && (negb (is_indirect g) || mem g decoder_callbacks || String.eqb g "*(local)").
+Definition fn_allocfree (f : string) : bool :=
+  match cg_find f with Some _ => forallb name_allocfree (cg_closure f) | None => false end.
+Lemma bridge_no_alloc_reachable :
+  match gen_callgraph with [] => true | _ => forallb fn_allocfree no_alloc_api end = true.
+Proof. vm_compute. reflexivity. Qed.
+
+(* the closure is not vacuous: from cbor_load the allocator IS reachable, and cbor_incref (reached from cbor_array_get) stores *)
+Example cg_closure_sees_the_allocator :
+  match gen_callgraph with [] => true | _ => negb (fn_allocfree "cbor_load") && negb (getter_pure "cbor_array_get") end = true.
 Proof. vm_compute. reflexivity. Qed.
